@@ -13,6 +13,7 @@
 
 #include "fb_common.h"
 #include <signal.h>
+#include "fiber_event.h"
 
 static int trial, scen;
 static _Atomic long ticker_count;
@@ -519,6 +520,23 @@ static void scen_invalid(uint64_t* rng) {
   }
 }
 
+// ---- scenario 3b: the state a read() racing with close() on another kernel thread reaches: the descriptor was still managed when
+// the call looked, and is closed by the time the call registers for its readiness. The wait must not park the fiber for a
+// descriptor nobody can ever report on (and nobody will close again).
+static void scen_wait_on_closed(fb_slot_t* me) {
+  int sv[2];
+  if (socketpair(AF_UNIX, SOCK_STREAM, 0, sv)) return;
+  const int fd = sv[0];
+  close(sv[0]);
+  vp_errno_clear();
+  int r = -7;
+  FB_BLOCKING(me, "C08 fiber_wait_for_event on a descriptor that was closed between the caller's look and the registration", r = fiber_wait_for_event(fd, FIBER_POLL_IN));
+  if (r != FIBER_ERROR)
+    vp_violation("C08", "io:wait-on-closed-descriptor", "trial %d: fiber_wait_for_event on the closed descriptor %d returned %d instead of reporting an error", trial, fd, r);
+  close(sv[1]);
+  vp_count("io_waits_on_a_descriptor_closed_meanwhile", 1);
+}
+
 // ---- scenario 4: close wakes a fiber blocked on the descriptor
 static int cw_fd;
 static _Atomic int cw_result_ready;
@@ -949,7 +967,7 @@ static void* root(void* x) {
       case 0: scen_streams(&rng); break;
       case 1: if (vp_rand(&rng) & 1) scen_eof(&rng); else scen_pipe_hangup(me, &rng); break;
       case 2: scen_nonblocking(me, &rng); break;
-      case 3: scen_invalid(&rng); break;
+      case 3: scen_invalid(&rng); scen_wait_on_closed(me); break;
       case 4: scen_close_wakes(&rng); break;
       case 5: scen_many_waiters(&rng); break;
       case 6: scen_dead_port(me); break;
